@@ -165,12 +165,14 @@ pub(crate) fn filename_without_workdir<'a>(filename: &'a str, config: &Config) -
     //MAYBE TODO: use proper PathBuf, this probably won't work on Windows
     if let Some(workdir) = config.workdir().map(|x| x.to_str().expect("valid utf-8")) {
         if filename.starts_with(workdir) {
-            let filename = &filename[workdir.len()..];
-            if filename.starts_with(&['/', '\\']) {
-                return &filename[1..];
-            } else {
-                return filename;
+            let remainder = &filename[workdir.len()..];
+            if remainder.starts_with(&['/', '\\']) {
+                return &remainder[1..];
+            } else if remainder.is_empty() || workdir.ends_with(&['/', '\\']) {
+                return remainder;
             }
+            //(otherwise the working directory is a mere prefix of the name of another
+            // directory, /a/e1 of /a/e10/file: the file is not in it)
         }
     }
     filename
